@@ -70,7 +70,7 @@ type runResult struct {
 	WallS        float64            `json:"wall_s"`
 	LoadS        float64            `json:"load_s"`
 	Functions    map[string]int     `json:"functions_executed"`
-	Samples      []map[string]int64 `json:"samples"`
+	Samples      []sample           `json:"samples"`
 	Params       map[string]int64   `json:"params"`
 	Solver       string             `json:"solver"`
 	Workers      int                `json:"workers"`
@@ -289,7 +289,7 @@ func registerHarnessIntrinsics(ld *loaded) {
 // runPath executes the entry function once along the given prefix.
 func runPath(ld *loaded, ex *explorer, sv *solver, prefix []decision) (px *pathCtx, outcome, reason string) {
 	sv.reset()
-	px = &pathCtx{ex: ex, sv: sv, tt: newTermTable(), prefix: prefix, defined: map[int]bool{}, covers: map[string]bool{}, varKind: map[string]int{}, store: map[string]value{}, fnCalls: map[string]int{}}
+	px = &pathCtx{ex: ex, sv: sv, tt: newTermTable(), prefix: prefix, defined: map[int]bool{}, covers: map[string]bool{}, varKind: map[string]int{}, store: map[string]value{}, fnCalls: map[string]int{}, q: newQuick()}
 	i := &interpreter{
 		prog:    ld.prog,
 		globals: make(map[*ssa.Global]*value),
@@ -322,11 +322,19 @@ func runPath(ld *loaded, ex *explorer, sv *solver, prefix []decision) (px *pathC
 				outcome = "ok"
 			case targetPanic:
 				// the program under test panicked: that is a finding in itself
+				if px.flushOnPanic() {
+					outcome, reason = "violation", "assertion (before panic)"
+					return
+				}
 				msg := "panic: " + toString(p.v)
 				outcome, reason = "violation", msg
 				m := px.currentModel()
 				px.recordViolation(msg, "panic", m, true)
 			case runtime.Error:
+				if px.flushOnPanic() {
+					outcome, reason = "violation", "assertion (before panic)"
+					return
+				}
 				msg := "runtime panic in target: " + p.Error()
 				if ex.cfg.Trace {
 					msg += "\n" + string(debug.Stack())
@@ -337,6 +345,10 @@ func runPath(ld *loaded, ex *explorer, sv *solver, prefix []decision) (px *pathC
 				m := px.currentModel()
 				px.recordViolation(msg, "panic", m, true)
 			case string:
+				if px.flushOnPanic() {
+					outcome, reason = "violation", "assertion (before panic)"
+					return
+				}
 				msg := "panic: " + p
 				outcome, reason = "violation", msg
 				m := px.currentModel()
@@ -360,6 +372,7 @@ func runPath(ld *loaded, ex *explorer, sv *solver, prefix []decision) (px *pathC
 			panic(engineAbort{"entry function not found: " + ex.cfg.Entry})
 		}
 		call(i, nil, token.NoPos, fn, nil)
+		px.flush()
 	}()
 	if outcome == "ok" && px.pos < len(px.prefix) {
 		outcome, reason = "inconclusive", "path ended before its decision prefix was consumed (non-deterministic harness)"
@@ -405,8 +418,13 @@ func explore(ld *loaded, cfg *runConfig) *runResult {
 						func() {
 							defer func() { recover() }()
 							if m := px.currentModel(); m != nil {
+								var cov []string
+								for k := range px.covers {
+									cov = append(cov, k)
+								}
+								sort.Strings(cov)
 								ex.mu.Lock()
-								ex.samples = append(ex.samples, m)
+								ex.samples = append(ex.samples, sample{Model: m, Covers: cov, Notes: px.notes})
 								ex.mu.Unlock()
 							}
 						}()
